@@ -633,6 +633,61 @@ func TestC13(t *testing.T) {
 	if coldViolation != "" {
 		t.Fatalf("%s", coldViolation)
 	}
+	// boundary documents (fixed, legal, past a byte in one dimension): every entry point once, inputs untouched, and the
+	// same results when evaluated again. Generated histories draw such sizes too rarely to rely on.
+	if ev.Shard() == 0 {
+		var docs []c13Doc
+		for _, nTypes := range []int{256, 257, 300} {
+			m := &gen.Model{Schema: "1.1", Types: []gen.TypeDef{{Name: "user"}}}
+			for i := nTypes - 1; i >= 1; i-- { // names in descending order: any sort of the caller's slice shows
+				td := gen.TypeDef{Name: fmt.Sprintf("t%03d", (i*7)%nTypes)}
+				if i%3 == 0 {
+					td.Rels = []gen.Relation{{Name: "viewer", Rw: &gen.Rewrite{Kind: gen.This}, Restr: []gen.Restriction{{Type: "user"}}}}
+				}
+				m.Types = append(m.Types, td)
+			}
+			seen := map[string]bool{}
+			var uniq []gen.TypeDef
+			for _, td := range m.Types {
+				if !seen[td.Name] {
+					seen[td.Name] = true
+					uniq = append(uniq, td)
+				}
+			}
+			m.Types = uniq
+			js, _ := protojson.Marshal(m.Proto())
+			docs = append(docs, c13Doc{Kind: "json", Text: string(js)})
+		}
+		{
+			// a tupleset with 300 parent types in no particular order, used by a tuple-to-userset
+			m := &gen.Model{Schema: "1.1", Types: []gen.TypeDef{{Name: "user"}}}
+			doc := gen.TypeDef{Name: "doc"}
+			parent := gen.Relation{Name: "parent", Rw: &gen.Rewrite{Kind: gen.This}}
+			for i := 0; i < 300; i++ {
+				n := fmt.Sprintf("f%03d", (i*7)%300)
+				parent.Restr = append(parent.Restr, gen.Restriction{Type: n})
+				m.Types = append(m.Types, gen.TypeDef{Name: n, Rels: []gen.Relation{{Name: "viewer", Rw: &gen.Rewrite{Kind: gen.This}, Restr: []gen.Restriction{{Type: "user"}}}}})
+			}
+			doc.Rels = []gen.Relation{parent, {Name: "viewer", Rw: &gen.Rewrite{Kind: gen.Union, Kids: []*gen.Rewrite{{Kind: gen.This}, {Kind: gen.TTU, Rel: "viewer", Tupleset: "parent"}}}, Restr: []gen.Restriction{{Type: "user"}}}}
+			m.Types = append(m.Types, doc)
+			js, _ := protojson.Marshal(m.Proto())
+			docs = append(docs, c13Doc{Kind: "json", Text: string(js)})
+		}
+		docs = append(docs, c13Doc{Kind: "merge", Text: "\ufeffmodule core\ntype user\n", More: []string{"module wiki\ntype doc\n  relations\n    define v: [user]\n"}})
+		for i, d := range docs {
+			r1, pur := c13Eval(d)
+			if pur != "" {
+				rec.Violation(c13Input{Steps: []c13Step{{Op: "new", Doc: &docs[i]}}}, "boundary document: "+pur)
+				t.Fatalf("boundary document #%d: %s", i, pur)
+			}
+			r2, _ := c13Eval(d)
+			if msg := c13Compare(r1, r2); msg != "" {
+				rec.Violation(c13Input{Steps: []c13Step{{Op: "new", Doc: &docs[i]}, {Op: "again", Idx: []int{0}}}}, "boundary document evaluated twice: "+msg)
+				t.Fatalf("boundary document #%d evaluated twice: %s", i, msg)
+			}
+		}
+		rec.Bulk(int64(len(docs)), int64(len(docs)), map[string]int64{"boundary:documents": int64(len(docs))})
+	}
 	// "calls independent of history", the shortest history there is: what a process does FIRST. State that is set up
 	// lazily by whichever call comes first (a separator, a table, a pooled object) shows only in the second call of a
 	// fresh process, and only when the first call was of a particular kind: a fresh child performs A then B, another
